@@ -361,6 +361,10 @@ fn run_one(out: &mut Out, lines: &[String]) {
 						}
 					}
 				}
+				// the responses of an array never just vanish: a batch completes or the whole array is refused
+				if array_has_response(&text) && obs.fatal.is_none() && !obs.comps.iter().any(|(_, c)| matches!(c, Comp::Batch { .. } | Comp::E(_))) && verdict.is_ok() {
+					verdict = Err(format!("the responses inside the array {text} took no effect: no batch completed and the connection was not given up"));
+				}
 				orc.deliver(&text);
 				if obs.fatal.is_some() {
 					dead = true;
